@@ -1,11 +1,15 @@
 (* C09 — static size and resource figures are true upper bounds. Statements only; proofs in
-   Proofs/ExtProofs.v over the model Ms/ExtModel.v (extra_props.rs) and Ms/Sat.v (satisfier). *)
-From Verif Require Import TypeCheck ExtModel ExtProofs.
+   Proofs/Ext*.v over the model Ms/ExtModel.v (extra_props.rs, script_size, descriptor weights,
+   Plan accounting) and Ms/Sat.v (satisfier). *)
+From Verif Require Import TypeCheck ExtModel ExtProofs ExtLemmas ExtThresh ExtSatSide ExtBounds.
+Local Open Scope N_scope.
 
-(* The full-strength statement [wit_bounds_stmt as_written] — for every well-typed script, context,
-   asset environment and mode, a satisfaction returned by the satisfier model has at most
+(* ---- the witness bounds (DESIGN 5/C09 wit_bounds) ----
+   Full strength: [wit_bounds_stmt as_written] — for every well-typed script, every context, every
+   asset environment and both modes, a satisfaction returned by the satisfier model has at most
    max_witness_stack_count elements, max_witness_stack_size bytes and (pre-segwit)
-   max_script_sig_size scriptSig bytes — is FALSE for the code as written, four independent ways: *)
+   max_script_sig_size scriptSig bytes. It is FALSE for the code as written, four independent ways
+   (each witness is a finding about /repo, see known_findings.txt): *)
 Theorem C09_wit_bounds_refuted_thresh : ~ wit_bounds_stmt as_written.
 Proof. exact wit_bounds_refuted_thresh. Qed.
 Print Assumptions C09_wit_bounds_refuted_thresh.
@@ -21,3 +25,50 @@ Print Assumptions C09_wit_bounds_refuted_unc.
 Theorem C09_wit_bounds_refuted_andv : ~ wit_bounds_stmt as_written.
 Proof. exact wit_bounds_refuted_andv. Qed.
 Print Assumptions C09_wit_bounds_refuted_andv.
+
+(* What IS true, for every rule set [fx] (the code as written or any subset of the four candidate
+   repairs), every script of the computable class [ext_safe fx c] (a construct whose rule is
+   defective is either repaired by [fx] or absent; children whose dissatisfaction a parent's
+   satisfaction uses have a dissatisfaction figure, which the type system's `d` gives; k <= n),
+   every asset environment, both modes: satisfaction and (where a figure exists) dissatisfaction
+   are covered. The class is evaluated on every generated script of a run (evidence:
+   theorem_class_coverage). Missing for full strength: [type_of m = ROk _ -> ext_safe all_fixed c m]
+   (d-typed => dissatisfaction figure) is checked per run, not proved. *)
+Theorem C09_wit_bounds_partial :
+  forall fx c ke se mall rhs m,
+    senv_ok c se -> ksort_len_ok ke -> ext_safe fx c m = true ->
+    bounded se (sat_data (ext_of_gen fx c m)) (snd (sat_dissat ke se mall rhs m))
+    /\ dbounded se (dissat_data (ext_of_gen fx c m)) (fst (sat_dissat ke se mall rhs m)).
+Proof. exact wit_bounds_gen. Qed.
+Print Assumptions C09_wit_bounds_partial.
+
+Theorem C09_wit_bounds_root :
+  forall fx c ke se mall rhs m l,
+    senv_ok c se -> ksort_len_ok ke -> ext_safe fx c m = true ->
+    s_stack (snd (sat_dissat ke se mall rhs m)) = WStack l ->
+    exists d, sat_data (ext_of_gen fx c m) = Some d
+              /\ N.of_nat (length l) <= sd_wcount d
+              /\ ph_sum se l <= sd_wsize d
+              /\ (se_tap se = false -> ssig_sum se l <= sd_ssig d).
+Proof. exact wit_bounds_root. Qed.
+Print Assumptions C09_wit_bounds_root.
+
+(* the arithmetic heart of the threshold rule, for all k and all child lists: with the first
+   [quota] children (by decreasing sat - dissat) satisfied, the five-pass computation dominates
+   every choice of exactly min(quota, n) satisfied children *)
+Theorem C09_threshold_topk :
+  forall strict k (T : list trip),
+    Forall okT T -> nflags T = Nat.min (quota strict k) (length T) ->
+    exists sd, th_sat_data strict k (map fst T) = Some sd
+               /\ V sd_wcount T <= sd_wcount sd /\ V sd_wsize T <= sd_wsize sd /\ V sd_ssig T <= sd_ssig sd.
+Proof. exact th_sat_data_bound. Qed.
+Print Assumptions C09_threshold_topk.
+
+Example C09_nonvacuous :
+  senv_ok cx_segwit se_key3 /\ ksort_len_ok ke0
+  /\ ext_safe as_written cx_segwit (MOrD (MCheck (MPkK 3)) (MAndV (MVerify (MCheck (MPkK 1))) (MOlder 10))) = true
+  /\ ext_safe all_fixed cx_segwit w_thresh = true
+  /\ ext_safe as_written cx_segwit w_thresh = false
+  /\ s_stack (snd (sat_dissat ke0 se_key3 false true (MOrD (MCheck (MPkK 3)) (MAndV (MVerify (MCheck (MPkK 1))) (MOlder 10)))))
+     = WStack [PhSig 3].
+Proof. exact wit_bounds_nonvacuous. Qed.
